@@ -13,7 +13,7 @@
 
 import itertools
 
-from ..drive import CFG8, Pair, typed_vals
+from ..drive import CFG8, Pair, lock_held, queue_len, typed_vals
 from ..par import BlockResult, Hang, deadline, run_blocks
 from ..ref import Cfg
 from ..report import Report
@@ -182,14 +182,14 @@ def attach_foreign_trigger(sm):
 
 def snapshot(p):
     sm = p.impl.sm
-    eng = sm._engine
+    eng = getattr(sm, "_engine", None)
     other = PROBE_FX["other"]
     return (
         PROBE_FX["n"], other.current_state_value if other is not None else None,
         repr(getattr(sm.model, "state", None)), id(sm.model),
         tuple(sorted(k[:] + "" for k in sm.__dict__)),
-        tuple(id(x) for x in sm._listeners), len(eng._external_queue), repr(eng._processing),
-        p.impl.env.seq, id(sm._engine), sm.allow_event_without_transition,
+        tuple(id(x) for x in getattr(sm, "_listeners", ())), queue_len(sm), lock_held(sm),
+        p.impl.env.seq, id(eng), sm.allow_event_without_transition,
         tuple(sorted(vars(sm.model))) if hasattr(sm.model, "__dict__") else (),
         tuple(sorted(vars(p.impl.listeners[0]))) if p.impl.listeners else (),
     )
@@ -207,6 +207,10 @@ def probe(res, asyn, cfg):
         res.violation({"category": "construct"}, {"probe": True, "cfg": list(cfg)}, r)
         return
     attach_foreign_trigger(p.impl.sm)
+    # one unknown event first: whatever the library caches lazily on the instance exists before
+    # the snapshots are taken (only changes *caused by a probe* count)
+    p.install("A")
+    p.send("warm_up_unknown_event", {"g1": True}, tag=None)
     names = sorted({n[:] + "" for n in dir(p.impl.sm)} | set(EXTRA_NAMES) |
                    {s.id for s in m.states} | {"work"})      # plain str (dir() may list triggers)
     res.stats["probe_names"] = max(res.stats["probe_names"], len(names))
